@@ -81,3 +81,21 @@ Theorem C08_monitor_holds_of_model :
                 c6_obs := formobs_of (c06_model c0) |} = true.
 Proof. exact c08_spec_of_model. Qed.
 Print Assumptions C08_monitor_holds_of_model.
+
+(* SP side, in the IDP group's small acceptance model (the full statement is
+   C01's, about SPModel.v): an encrypted assertion is first opened and then goes
+   through exactly the function a plaintext one goes through; an assertion
+   encrypted to a key the SP does not hold is an error. *)
+Theorem C08_decrypted_same_path :
+  forall sp delay skew now ids resp,
+    sp_accept sp delay skew now ids resp =
+    (do _ <- sp_envelope sp delay now ids resp;
+     do a <- sp_extract sp (rs_assertion (rs_body resp));
+     sp_validate_assertion sp delay skew now ids a).
+Proof. exact sp_accept_same_path. Qed.
+Print Assumptions C08_decrypted_same_path.
+
+Theorem C08_undecryptable_is_error :
+  forall sp e, (forall k, sp_key sp = Some k -> k <> en_recipient e) -> sp_extract sp (AEnc e) = Err 7.
+Proof. exact sp_undecryptable_is_error. Qed.
+Print Assumptions C08_undecryptable_is_error.
